@@ -14,8 +14,15 @@ QUERIES = [
     bounds='all static/dynamic level combinations on a reused transit-event slot',
     what='TransitEvent::log_level reports exactly the given dynamic level, and the static level when the metadata is static'),
 ]
+C12F = [r'get_local_thread_context', r'16PatternFormatter(C2|D2|12_set_pattern)', r'18TimestampFormatter', r'^_ZSt11make_sharedIN5quill',
+        r'^_ZN(5quill2v9)?(4Sink|6Filter|6detail11SinkManager|6detail13LoggerManager|6detail20ThreadContextManager|6detail10LoggerBase|10LoggerImplI2FOE|6detail13ThreadContext|6detail18TransitEventBuffer|6detail13BackendWorker|14BackendOptions)D[012]Ev$',
+        r'^_ZNSt23_Sp_counted_ptr_inplace', r'^_ZNSt15_Sp_counted_ptr']
+QUERIES += [Q('per_sink_loop', 'C12_lines.cpp', 'h_per_sink', defines=['TEBCAP=2'], cuts=[r'^_ZN5quill2v96detail12TransitEvent(C2|D2|aS)'], forbid=C12F,
+              hooks=[r'16PatternFormatter6formatEm=vh_pf_format'], models=['m_transit.c', 'm_throw.c', 'm_env.c'], libmodels=['m_string.c', 'm_stl.c'], cdefs=['VLL_STRBLOCK=160'], unwind=24, unwindset=['strlen.0:140'], timeout=280,
+              bounds='real BackendWorker::_write_log_statement on one dynamic-level event, logger with two sinks, each with/without an override pattern (4 combinations, symbolic), symbolic thresholds and level; PatternFormatter::format replaced by a hook that tells the logger formatter from the override formatter',
+              what='sink i written <=> level >= threshold_i independently; each sink receives the line of its own override formatter if it has one, else the logger\'s')]
 BOUNDS = 'one statement, two sinks, <= 2 filters, all level combinations'
-OUTSIDE = 'per-sink override formatter selection and the backend per-sink loop (_write_log_statement) are part of the backend-kernel queries; concurrent set_log_level (single relaxed atomic: any interleaving yields the old or new level)'
+OUTSIDE = 'K1 dynamic-level decode/reset on the real read loop (backend kernels not under the memory cap); concurrent set_log_level (single relaxed atomic: any interleaving yields the old or new level)'
 ASSUMPTIONS = ['log_statement replaced by a recorder on a LoggerBase-derived type (the macros are duck-typed); filters are Filter subclasses with solver-chosen verdicts']
 MANIFEST = {
  'text': 'The solver decides the level/filter gate on the real code for all level combinations at once: the real log macros expanded in the harness with the real LoggerBase level test (enqueue and argument evaluation), the real Sink::apply_all_filters/add_filter with symbolic thresholds and filter verdicts, and the level a transit event reports.',
